@@ -34,7 +34,7 @@ Lemma desc_ok_fields : forall nenv md, desc_ok nenv md = true ->
     (f_label f = LNone -> zeroish f (init_cell f) = Ok true).
 Proof.
   intros nenv md D f Hin. unfold desc_ok in D. rewrite !andb_true_iff in D.
-  destruct D as [[[[[[[Hi Hb] Hfo] _] _] _] _] Hz].
+  destruct D as [[[[[[Hi Hb] Hfo] _] _] _] Hz].
   rewrite forallb_forall in Hfo, Hb, Hz. split; [exact (Hfo f Hin)|]. split.
   - specialize (Hb (f_id f) (in_map f_id _ f Hin)). lia.
   - intros El. specialize (Hz f Hin). rewrite El in Hz. destruct (zeroish f (init_cell f)) as [[|]|]; try discriminate Hz. reflexivity.
